@@ -25,8 +25,8 @@ type urlIn struct {
 	Query   string      `json:"query"`
 	Host    string      `json:"host"`
 	Hdr     [][2]string `json:"hdr"`
-	WS      bool        `json:"ws"`  // send "Upgrade: websocket" (fabio's websocket path)
-	Upg     string      `json:"upg"` // spelling of the Upgrade value when ws ("" = "websocket"); it is compared case-insensitively
+	WS      bool        `json:"ws"`      // send "Upgrade: websocket" (fabio's websocket path)
+	Upg     string      `json:"upg"`     // spelling of the Upgrade value when ws ("" = "websocket"); it is compared case-insensitively
 	TLSSkip bool        `json:"tlsskip"` // route option tlsskipverify=true: the proxy's second transport is used
 	Body    string      `json:"body"`
 	Cfg     pcfg        `json:"cfg"`  // proxy configuration beside the route: must not matter (request-id header apart)
@@ -34,11 +34,12 @@ type urlIn struct {
 }
 
 type urlOut struct {
-	Status  int    `json:"status"`
-	Hits    int    `json:"hits"`
-	Up      *upRec `json:"up"`
-	SentLen int    `json:"sent_blen"`
-	SentSHA string `json:"sent_bsha"`
+	Status   int    `json:"status"`
+	Hits     int    `json:"hits"`
+	Up       *upRec `json:"up"`
+	SentLen  int    `json:"sent_blen"`
+	SentSHA  string `json:"sent_bsha"`
+	Attempts int    `json:"attempts"` // measurements needed (see exchange)
 }
 
 // optBytes decodes a latin-1 carried option value and rejects what a route command cannot carry.
@@ -178,23 +179,12 @@ func runURL(raw json.RawMessage) (interface{}, error) {
 		cfg.GZIPContentTypes = gzipTypes
 	}
 	e := getEnv()
-	// An exchange that breaks off is tried again (the websocket handler gives the upstream one second for the
-	// handshake, which a loaded machine can miss); an error that persists is reported.
-	var resp *clientResp
-	for attempt := 0; attempt < 3; attempt++ {
-		if err = e.installCfg(cfg, in.Cfg, cmd, nil, nil); err != nil {
-			return nil, err
-		}
-		if resp, err = e.roundTrip(in.Method, req, false); err == nil {
-			break
-		}
-	}
+	resp, hits, up, attempts, err := e.exchange(cfg, in.Cfg, cmd, nil, nil, in.Method, req, false)
 	if err != nil {
 		return nil, err
 	}
-	hits, up := e.seen()
 	body, _ := fromL1(in.Body)
-	return urlOut{Status: resp.Status, Hits: hits, Up: up, SentLen: len(body), SentSHA: sha(body)}, nil
+	return urlOut{Status: resp.Status, Hits: hits, Up: up, SentLen: len(body), SentSHA: sha(body), Attempts: attempts}, nil
 }
 
 var (
